@@ -44,6 +44,29 @@ func main() {
 		debugMain(os.Args[2:])
 	case "matrix":
 		matrixMain()
+	case "memat":
+		// debug: memat <fn> <line>: memory of the states at the instructions of that line
+		p, err := Load(repoDir(), BuildConfig{})
+		if err != nil {
+			fmt.Println("ERR", err)
+			os.Exit(2)
+		}
+		curProg = p
+		fn := p.Fn(os.Args[2])
+		a := NewAnalysis(p, fn)
+		a.Run()
+		for in, sts := range a.At {
+			if !strings.HasSuffix(p.InstrPos(in), ":"+os.Args[3]) {
+				continue
+			}
+			for _, st := range sts {
+				fmt.Printf("%s %v\n", p.InstrPos(in), in)
+				for _, k := range sortedKeys(st.mem) {
+					fmt.Printf("     %s = %s\n", k, trunc(st.mem[k].Key, 100))
+				}
+				fmt.Printf("     tags=%v\n", st.tags)
+			}
+		}
 	case "chans":
 		p, err := Load(repoDir(), BuildConfig{})
 		if err != nil {
